@@ -215,7 +215,9 @@ class SingleDeletionSweep(Contract):
 
         with Workspace.create(path) as ws:
             g1 = ContainerGroup.create(ws, name="site")
-            g2 = ContainerGroup.create(ws, name="sub_site", parent=g1)
+            # the nested group's identifier sorts before its parent's and before the root's: a rebuild that
+            # walks the flat container in identifier order meets the child first
+            g2 = ContainerGroup.create(ws, name="sub_site", parent=g1, uid=__import__("uuid").UUID(int=1))
             p = Points.create(ws, name="stations", vertices=np.arange(9.0).reshape(3, 3), parent=g1)
             grav = p.add_data({"grav": {"values": np.arange(3.0)}})
             grav.entity_type.color_map = np.c_[np.linspace(0.0, 2.0, 4), np.arange(4) * 10, np.arange(4) * 20, np.arange(4) * 30, np.ones(4) * 255]
@@ -366,8 +368,12 @@ class SingleDeletionSweep(Contract):
                 if uid not in got:
                     return f"deleting {case} lost entity {desc['class']} '{desc['name']}'"
                 for k, v in desc.items():
-                    if case["kind"] == "root-link" and k in ("parent", "children"):
-                        continue  # a rebuilt root adopts the stored groups and objects
+                    if case["kind"] == "root-link":
+                        # the missing link described the root only: every other entity keeps its parent and
+                        # its children; the children of the former root hang under it or under the rebuilt root
+                        new_roots = {u for u, dsc in got.items() if dsc["parent"] == "None"}
+                        if k == "parent" and v == root_uid and got[uid].get(k) in new_roots | {root_uid}:
+                            continue
                     if got[uid].get(k) != v:
                         return f"deleting {case} altered {desc['class']} '{desc['name']}'.{k}: {v!r} -> {got[uid].get(k)!r}"
         finally:
@@ -442,6 +448,10 @@ class RebuildRoot(Contract):
             return PList([None])
 
         def io_call(I, a, kw):
+            fn = getattr(getattr(a[0], "func", a[0]), "__name__", "")
+            if fn == "fetch_children":  # the children a stored entity lists in the file
+                i = a[1].int - 1
+                return PDict({uids[j]: "group" for j in (pattern[i] if a[2] == "group" and i < len(pattern) else ())})
             return PList(list(uids)) if a[1] == "group" else PList([])
 
         for name, fn in (("load_entity", load_entity), ("fetch_children", fetch_children), ("get_entity", get_entity), ("_io_call", io_call), ("create_entity", lambda I, a, kw: Opaque("new-root"))):
@@ -453,8 +463,16 @@ class RebuildRoot(Contract):
 
     def post(self, ctx, result):
         e = ctx.env
+        n, pattern = ctx.case
+        nested = {j for p_ in pattern for j in p_}
+        direct = [p["uid"] for k, p in ctx.path.events if k == "load"]
         for i, u in enumerate(e["uids"]):
             ctx.oblige(f"stored-group-{i}-is-returned", u in e["loaded"], note=f"identifier #{i} of the flat Groups container is never loaded")
+            if i in nested:
+                ctx.oblige(f"nested-group-{i}-comes-with-its-parent-not-under-the-rebuilt-root", u not in direct,
+                           note=f"group #{i} is stored as the child of another group but is loaded directly under the rebuilt root (its parent is altered)")
+            else:
+                ctx.oblige(f"top-level-group-{i}-is-loaded-once", direct.count(u) == 1)
 
 
 CONTRACTS = CONTRACTS + [RebuildRoot]
